@@ -4,6 +4,7 @@ import (
 	"go/ast"
 	"go/token"
 	"go/types"
+	"golang.org/x/tools/go/packages"
 	"strings"
 
 	"kapcheck/an"
@@ -95,6 +96,7 @@ func ruleCopyReset(c *core.Ctx, rule string) {
 		})
 		c.Check(good, rule, "CreateExecutionState#fresh-table", fn.Decl.Pos(), "CreateExecutionState must allocate a new function table (NewFunctions()/make) for every state")
 	}
+	ruleSharedTable(c, rule, pkg)
 	// NewFunctions builds a new map with new function instances (no package-level instance shared)
 	if fn := c.Need(rule, "tick/stateful", "", "NewFunctions"); fn != nil {
 		bad := false
@@ -132,6 +134,62 @@ func ruleCopyReset(c *core.Ctx, rule string) {
 			c.Ok(rule, "NewFunctions#fresh-instances")
 		}
 	}
+}
+
+// ruleSharedTable: what is registered in the table every execution state shares (statelessFuncs: NewFunctions copies its entries
+// by reference) must have no state: the entry's type declares so by an empty Reset() (a type that has something to reset is
+// stateful: spread, count, sigma). Called from ruleCopyReset.
+func ruleSharedTable(c *core.Ctx, rule string, pkg *packages.Package) {
+	info := pkg.TypesInfo
+	resetEmpty := map[*types.TypeName]bool{}
+	for _, f := range core.AllFuncs(pkg) {
+		if f.Decl.Recv == nil || f.Decl.Name.Name != "Reset" {
+			continue
+		}
+		t := info.TypeOf(f.Decl.Recv.List[0].Type)
+		if p, ok := t.(*types.Pointer); ok {
+			t = p.Elem()
+		}
+		if nn := core.NamedOf(t); nn != nil {
+			resetEmpty[nn.Obj()] = len(an.Effective(f.Decl.Body.List)) == 0
+		}
+	}
+	n := 0
+	for _, f := range core.AllFuncs(pkg) {
+		ast.Inspect(f.Decl.Body, func(nd ast.Node) bool {
+			as, ok := nd.(*ast.AssignStmt)
+			if !ok || len(as.Lhs) != 1 || len(as.Rhs) != 1 {
+				return true
+			}
+			ix, ok := as.Lhs[0].(*ast.IndexExpr)
+			if !ok {
+				return true
+			}
+			id, ok := ast.Unparen(ix.X).(*ast.Ident)
+			if !ok {
+				return true
+			}
+			v, ok := info.Uses[id].(*types.Var)
+			if !ok || v.Parent() != pkg.Types.Scope() || v.Name() != "statelessFuncs" {
+				return true
+			}
+			n++
+			t := info.TypeOf(as.Rhs[0])
+			if p, ok := t.(*types.Pointer); ok {
+				t = p.Elem()
+			}
+			nn := core.NamedOf(t)
+			if nn == nil {
+				return true
+			}
+			empty, known := resetEmpty[nn.Obj()]
+			if known && !empty {
+				c.Fail(rule, "statelessFuncs#stateful-entry:"+nn.Obj().Name(), as.Pos(), "a %s is registered in the table that every execution state shares by reference, but its Reset() has something to reset: it is stateful, so all groups, all expressions and all tasks of the process share its running state (a group's spread() then spans the values of the other groups)", nn.Obj().Name())
+			}
+			return true
+		})
+	}
+	c.Floor(rule, "entries of the shared function table", n, 30)
 }
 
 // stateless: a package-level function value whose type has no fields cannot carry state.
